@@ -98,7 +98,7 @@ def collect(ck: Check, n_cases: int, n_ops: int, fixed=None):
         out += r["results"]
     crashed = [r for r in out if "crash" in r]
     if crashed:
-        ck.broke("impl-runner-crash", crashed[0]["crash"])
+        ck.runner_crash({"backend": crashed[0].get("backend"), "case_seed": crashed[0].get("seed")}, crashed[0]["crash"])
     return [r for r in out if "crash" not in r]
 
 
